@@ -121,7 +121,11 @@ func gen03(c *hmain.Ctx) {
 		multiWhich = 0
 	}
 	var jobs []*job
+	only := os.Getenv("C03_ONLY") // development aid: run only the streams whose name contains this text
 	add := func(stream string, which int, cs hx.Sx, nontr bool) {
+		if only != "" && !strings.Contains(stream, only) {
+			return
+		}
 		jobs = append(jobs, &job{stream: stream, which: which, cs: cs, nontr: nontr})
 	}
 
@@ -448,6 +452,11 @@ func gen03(c *hmain.Ctx) {
 			phaseS([]hx.Sx{opAppend(0, 0, ls...)}, 2, 2+n, 30000),
 			phaseS(nil, 0, 0, 150))
 		add("multi-stream-antispam", multiWhich, cs, true)
+	}
+
+	// ---- 8. scale / history thresholds (gen_thresholds.go)
+	if os.Getenv("C03_SKIP_THRESHOLDS") == "" { // development aid: time the streams above alone
+		genThresholds(c, r, add)
 	}
 
 	// ---- run: the cases are independent worlds; execute them concurrently, record them in order
